@@ -121,7 +121,10 @@ def chain_jobs(results, jobs_by_seed, n_chains, rng, depth_cap=1):
 
 def classify(prop, res, inst):
     """yield violation records of property `prop` from one instance"""
-    base = {"property": prop, "seed": res["seed"], "op": inst["op"], "args": inst["args"], "enc": inst.get("enc"), "chain": res.get("chain"), "q_src": inst.get("q_src"), "p_src": res.get("p_src")}
+    base = {"property": prop, "seed": res["seed"], "op": inst["op"], "args": inst["args"], "enc": inst.get("enc"), "chain": inst.get("chain_override", res.get("chain")), "q_src": inst.get("q_src"), "p_src": inst.get("p_src_override", res.get("p_src"))}
+    for k_ in ("from_composite", "localise", "localise_error", "primitive_steps"):
+        if inst.get(k_) is not None:
+            base[k_] = inst[k_]
     if prop == "C10" and inst.get("c10_origin_mismatch"):
         rec = dict(base)
         rec.update(kind="origin", detail=inst["c10_origin_mismatch"], summary=f"call_eqv accepted a callee of another origin on {res['seed']}: {inst['c10_origin_mismatch']}", dedup=f"{res['seed']}|origin|{inst['c10_origin_mismatch']}")
@@ -193,13 +196,21 @@ def run_property(prop, tier, only_seeds=None, only_ops=None):
         if not only_seeds:
             only_seeds = seed_names()
     jobs = plan_jobs(props, tier, vseed, only_seeds, only_ops, cap_override)
+    if prop in ("C01", "C04", "C07", "C17") and not os.environ.get("VERIF_NO_COMPOSITES"):
+        # the standard-library composite schedules (vlib/composites.py), one extra job per seed
+        cj0 = []
+        for j in jobs:
+            j2 = dict(j)
+            j2.update(atomic=False, composites=True, composite_cap=4 if tier == "quick" else 16, budget_s=j["budget_s"] * 0.6)
+            cj0.append(j2)
+        jobs = jobs + cj0
     if prop in ("C05", "C10"):
         # all selected seeds even in quick (the family is already restricted)
         pass
     results = run_jobs(jobs)
     rng = random.Random(vseed)
     if not only_seeds or tier == "thorough":
-        cj = chain_jobs(results, {j["seed_name"]: j for j in jobs}, 24 if tier == "quick" else 200, rng)
+        cj = chain_jobs(results, {j["seed_name"]: j for j in jobs if j.get("atomic", True)}, 24 if tier == "quick" else 200, rng)
         res2 = run_jobs(cj) if cj else []
         for j, r in zip(cj, res2):
             r["chain"] = j["chain"]
@@ -273,7 +284,8 @@ def run_property(prop, tier, only_seeds=None, only_ops=None):
         "evaluations": stats["attempts"],
         "distinct_nontrivial": nontrivial,
         "rule": "one case = one (seed procedure, scheduling op, argument tuple) accepted by the real operation; non-trivial = the derived encoding is not syntactically identical to the original's (a solver query was needed)",
-        "seeds": len(jobs),
+        "seeds": len({j["seed_name"] for j in jobs}),
+        "composite_ops_accepted": {k: v for k, v in ops_acc.items() if k.startswith("std.")},
         "chains_depth2": sum(1 for r in results if r.get("chain")),
         "ops_accepted": dict(ops_acc),
         "status_counts": dict(stats),
